@@ -35,7 +35,7 @@ def wf_value(pod_table, o):
 
 def generic_clauses(pod_table, res):
     out = [("result-kind", ["C01", "C02"], kind(res) in ("None", "Time", "Interval", "Duration")),
-           ("wf-result", ["C02"], True if res is None else wf_value(pod_table, res))]
+           ("wf-result", ["C02", "C01"], True if res is None else wf_value(pod_table, res))]
     if kind(res) == "Interval":
         out.append(("aux-invariant-clock-range", ["C07"], WF.aux_interval(res)))
     return out
